@@ -183,6 +183,11 @@ def run(ctx):
         c2s(ctx, 500, 100, 60)
     else:
         c2s(ctx, 8000, 3000, 100000)
+    # whole sessions against System.tla: this check judges the rejections at the "writenotes" event
+    from . import system_common as sysc
+    sessions, sverdict = sysc.run_sessions(ctx, 150 if ctx.quick else 3000, ctx.seed + 8)
+    sysc.judge(ctx, "C08", sessions, sverdict, {"writenotes"}, "writing a note stream into a chart inside a session")
+    ctx.notes["sessions_with_a_writenotes_event"] = sum(1 for s_ in sessions if any(e["op"] == "writenotes" for e in s_["events"]))
     ctx.exhaustive = True
     ctx.rule = ("S2C: every sorted stream of the bounded MC_Encode configurations (incl. the empty stream); C2S: random "
                 "sorted streams + notes decoded from generated texts and corpus windows; distinct = distinct (stream, columns)")
